@@ -128,3 +128,8 @@ __CPROVER_ensures(post_replace(self) && __CPROVER_return_value == self)
 RELEASED_IF_LAST(self)
 STRING_FRAME(self)
 ;
+void c_String_ctor_fill(struct String* self, usize length, char c)
+__CPROVER_requires(length <= NV_MAXSZ)
+__CPROVER_ensures(post_string(self))
+__CPROVER_assigns(__CPROVER_object_whole(self))
+;
